@@ -396,7 +396,7 @@ theorem regsC_ne_nil (c : Circuit) (hgood : c.Good) (seq : List Nat) : ∀ a, a 
 /-! ## the compile loop's classical writes refine the record -/
 
 /-- the classical register a circuit operation writes (0 for operations that write none) -/
-def _root_.Graphiq.COp.creg : COp → Nat
+def cCreg : COp → Nat
   | .ccx _ _ c | .ccz _ _ c | .mcr _ _ c | .measz _ c => c
   | _ => 0
 
@@ -419,7 +419,7 @@ theorem recOf_append_one (w : List (Nat × Bool)) (i : Nat) (o : Bool) : recOf (
 
 /-- one step of the compile loop appends the recorded outcomes to `outs` and writes them into the operation's register -/
 theorem stepOp_writes (np n : Nat) (d : Det) (s s' : RunState) (op : COp) (h : stepOp np n d s op = some s') :
-    ∃ new : List Bool, s'.outs = s.outs ++ new ∧ s'.writes = s.writes ++ new.map fun o => (op.creg, o) := by
+    ∃ new : List Bool, s'.outs = s.outs ++ new ∧ s'.writes = s.writes ++ new.map fun o => (cCreg op, o) := by
   cases op <;> simp only [stepOp] at h <;> split at h <;> (try cases h)
   · exact ⟨[], by simp, by simp⟩
   · exact ⟨[], by simp, by simp⟩
@@ -432,7 +432,7 @@ theorem stepOp_writes (np n : Nat) (d : Det) (s s' : RunState) (op : COp) (h : s
   · exact ⟨[], by simp, by simp⟩
 
 theorem decode_wreg (ne np : Nat) (a : SOp) (d : Dec) (hdec : decode ne np a = some d) :
-    ((toCOp a).measures = false → wreg a = none) ∧ ((toCOp a).measures = true → wreg a = some (toCOp a).creg) := by
+    (cMeasures (toCOp a) = false → wreg a = none) ∧ (cMeasures (toCOp a) = true → wreg a = some (cCreg (toCOp a))) := by
   have h := hdec
   unfold decode at h
   unfold toCOp wreg
@@ -440,17 +440,17 @@ theorem decode_wreg (ne np : Nat) (a : SOp) (d : Dec) (hdec : decode ne np a = s
   · next g r hitem hregs =>
     rw [hitem, hregs]
     refine ⟨fun _ => rfl, fun hm => ?_⟩
-    cases g <;> simp [g1COp, COp.measures] at hm
+    cases g <;> simp [g1COp, cMeasures] at hm
   · next _ cr r hitem hregs =>
     rw [hitem, hregs]
-    exact ⟨fun hm => by simp [COp.measures] at hm, fun _ => rfl⟩
+    exact ⟨fun hm => by simp [cMeasures] at hm, fun _ => rfl⟩
   · next k _ cr c t hitem hregs =>
     split at h
     · rw [hitem, hregs]
       cases k <;> simp only [pairPrims, reduceCtorEq] at h
       all_goals first
-        | exact ⟨fun _ => rfl, fun hm => by simp [pairCOp, COp.measures] at hm⟩
-        | exact ⟨fun hm => by simp [pairCOp, COp.measures] at hm, fun _ => rfl⟩
+        | exact ⟨fun _ => rfl, fun hm => by simp [pairCOp, cMeasures] at hm⟩
+        | exact ⟨fun hm => by simp [pairCOp, cMeasures] at hm, fun _ => rfl⟩
     · cases h
   · cases h
 
@@ -475,7 +475,7 @@ theorem sop_step (ne np : Nat) (d : Det) (a : SOp) (hdec : (decode ne np a).isSo
     (s s' : RunState) (ht : TInv (ne + np) s.t) (hs : stepOp np (ne + np) d s (toCOp a) = some s') :
     TInv (ne + np) s'.t ∧ ∃ new : List Bool, s'.outs = s.outs ++ new ∧
       new.length = (if ((decode ne np a).bind Dec.mreg).isSome then 1 else 0) ∧
-      (new.length = if (toCOp a).measures then 1 else 0) ∧
+      (new.length = if cMeasures (toCOp a) then 1 else 0) ∧
       ∀ X, appRaw ne np a (some (gstate s.t, feed ne np [a] new X)) = some (gstate s'.t, X) ∧
         outOf ne np a (feed ne np [a] new X) = new.headD false := by
   obtain ⟨dd, hdd⟩ := Option.isSome_iff_exists.mp hdec
@@ -491,7 +491,7 @@ theorem sop_step (ne np : Nat) (d : Det) (a : SOp) (hdec : (decode ne np a).isSo
   simp only
   cases hm : dd.mreg with
   | none =>
-    have hmf : (toCOp a).measures = false := by rw [← hms, hm]; rfl
+    have hmf : cMeasures (toCOp a) = false := by rw [← hms, hm]; rfl
     rw [hmf] at hlen
     have hnil : new = [] := List.length_eq_zero_iff.mp (by simpa using hlen)
     subst hnil
@@ -502,7 +502,7 @@ theorem sop_step (ne np : Nat) (d : Det) (a : SOp) (hdec : (decode ne np a).isSo
     rw [hfeed, if_pos hhas, hout, hpr, hrun]
     simp only [Option.map_some, Dec.pop, hm, and_self]
   | some r =>
-    have hmt : (toCOp a).measures = true := by rw [← hms, hm]; rfl
+    have hmt : cMeasures (toCOp a) = true := by rw [← hms, hm]; rfl
     rw [hmt] at hlen
     obtain ⟨o, ho⟩ : ∃ o, new = [o] := List.length_eq_one_iff.mp (by simpa using hlen)
     subst ho
@@ -547,7 +547,7 @@ theorem run_refines_record (ne np : Nat) (d : Det) (l : List SOp)
       simp only [Option.map_some]
       have hrec : writeRec a (new1'.headD false) (recOf s.writes) = recOf s1.writes := by
         obtain ⟨hw0, hw1'⟩ := decode_wreg ne np a dd hdd
-        cases hm : (toCOp a).measures with
+        cases hm : cMeasures (toCOp a) with
         | false =>
           rw [hm] at hlen1'
           have : new1' = [] := List.length_eq_zero_iff.mp (by simpa using hlen1')
